@@ -1,6 +1,8 @@
 SPECIFICATION Spec
 CONSTANTS
   Mode = "laws"
-  Depth = 0
+  Returns = TRUE
+  Groups = {1, 2, 3}
 INVARIANT Laws
+INVARIANT VerdictLaw
 CHECK_DEADLOCK FALSE
